@@ -4,6 +4,7 @@ import (
 	"github.com/bokysan/socketace/v2/internal/streams/dns/commands"
 	"github.com/bokysan/socketace/v2/internal/streams/dns/util"
 	"github.com/bokysan/socketace/v2/internal/util/enc"
+	"github.com/bokysan/socketace/v2/internal/verifhook"
 	"github.com/miekg/dns"
 	"github.com/pkg/errors"
 	log "github.com/sirupsen/logrus"
@@ -107,6 +108,7 @@ func NewServerDnsListener(topDomain string, comm ServerCommunicator) *ServerDnsL
 			}
 
 			srv.usersLock.Unlock()
+			verifhook.Emit("dns.expiry.pass")
 		}
 	}()
 
@@ -122,6 +124,7 @@ func (s *ServerDnsListener) newUser(a net.Addr) (*userConnection, error) {
 
 	for i, u := range s.connections {
 		if u == nil {
+			verifhook.At("dns.newUser.slot")
 			u = &userConnection{
 				lastConnection: time.Now(),
 				localAddress:   s.Addr(),
